@@ -17,7 +17,22 @@ ASSUMPTIONS = [
     "the ramfile backend's per-image backend is a stub answering show() per image",
 ]
 
-SIZES_ON = ["1 GiB", "1.5 MiB", "2e+03 KiB", "512 B", "10 B", "100 KiB", "1.07 GiB"]
+import math
+
+
+def qemu_size(val):
+    """qemu's size_to_str(): what `qemu-img snapshot -l` prints in the VM SIZE column."""
+    suffixes = ["", "Ki", "Mi", "Gi", "Ti", "Pi", "Ei"]
+    _, exponent = math.frexp(val / (1000.0 / 1024.0))
+    index = max((exponent - 1) // 10, 0)
+    return "%0.3g %sB" % (val / float(1 << (index * 10)), suffixes[index])
+
+
+# byte counts around every formatting edge: below 1000 B, 0.977 of a unit, three digits, rounding up to 1e+03
+BYTES_ON = [1, 10, 512, 999, 1000, 1023, 1024, 1536, 10240, 123 * 1024, 999 * 1024, 1023999, 1000 * 1024, 1023 * 1024,
+            1024 ** 2, int(1.5 * 1024 ** 2), 256 * 1024 ** 2, 1000 * 1024 ** 2, 1023 * 1024 ** 2, 1024 ** 3,
+            int(1.07 * 1024 ** 3), 1000 * 1024 ** 3, 3 * 1024 ** 4]
+SIZES_ON = sorted({qemu_size(b) for b in BYTES_ON}) + ["2e+03 KiB"]
 NAMES = ["install", "customize", "on_customize", "launch", "a", "b", "c", "x.y", "with-dash", "s10", "connect.a1", "0root_like"]
 
 
